@@ -59,9 +59,11 @@ def _initialize(
     mapped to *smoothing*.
 
     """
+    # (iterate in a fixed order: the iteration order of a set of strings
+    # varies between interpreter runs)
     freq: Freq = {
         pos: {synset.id: smoothing for synset in wordnet.synsets(pos=pos)}
-        for pos in IC_PARTS_OF_SPEECH
+        for pos in (NOUN, VERB, ADJ, ADV)
     }
     # pretend ADJ_SAT is just ADJ
     for synset in wordnet.synsets(pos=ADJ_SAT):
